@@ -130,6 +130,45 @@ outside the documented usage described above. -/
 def specLayout {Op : Type} (size : Op → Nat) (bs : List (Block Op)) : Option (List (Nat × Op)) :=
   (specBlocks size (init Op) bs).map (·.out)
 
+/-! ### files whose layout is the one written in the skool file -/
+
+/-- A line of a fixed-layout file: it has an address and at most one directive, which replaces
+(or overwrites with) an instruction — nothing is inserted before or after it. -/
+def plainLine {Op : Type} (l : Line Op) : Bool :=
+  l.sa.isSome && decide (l.subs.length ≤ 1) && l.subs.all (fun s => !s.flags.prepend && !s.flags.append)
+
+/-- `specItem` restricted to fixed layouts: every line that is not removed is plain and is placed
+at the address written in its address field. -/
+def specItemFixed {Op : Type} (size : Op → Nat) (st : St Op) (i : Item Op) : Option (St Op) :=
+  match i with
+  | .line l =>
+    if isRemoved st.removed l.sa || (plainLine l && startPc st.porg st.pc l.sa == l.sa) then specItem size st i
+    else none
+  | _ => specItem size st i
+
+def specItemsFixed {Op : Type} (size : Op → Nat) : St Op → List (Item Op) → Option (St Op)
+  | st, [] => some st
+  | st, i :: is =>
+    match specItemFixed size st i with
+    | none => none
+    | some st' => specItemsFixed size st' is
+
+def specBlocksFixed {Op : Type} (size : Op → Nat) : St Op → List (Block Op) → Option (St Op)
+  | st, [] => some st
+  | st, b :: bs =>
+    match specItemsFixed size { st with removed := [], started := false } b with
+    | none => none
+    | some st' => specBlocksFixed size st' bs
+
+/-- The reference layout of a fixed-layout file (`none` if the file is not one). -/
+def specLayoutFixed {Op : Type} (size : Op → Nat) (bs : List (Block Op)) : Option (List (Nat × Op)) :=
+  (specBlocksFixed size (init Op) bs).map (·.out)
+
+/-- Memory after a sequence of pokes, for any encoding `enc op address` of operations into bytes. -/
+def pokeMem {Op : Type} (enc : Op → Nat → List Nat) (mem : Nat → Nat) : List (Nat × Op) → Nat → Nat
+  | [] => mem
+  | (a, o) :: r => pokeMem enc (fun x => if a ≤ x ∧ x < a + (enc o a).length then (enc o a).getD (x - a) 0 else mem x) r
+
 /-- The reference relocation map (original address ↦ new address). -/
 def specAmap {Op : Type} (size : Op → Nat) (bs : List (Block Op)) : Option (List (Nat × Nat)) :=
   (specBlocks size (init Op) bs).map (·.amap)
